@@ -19,9 +19,9 @@
      the result once the whole value has been walked); an error returned by a
      type's own UnmarshalJSON / UnmarshalText ABORTS at once and wins over a
      saved one.  Top-level null into a struct is no error.
-   - Not transcribed: a duplicate member of slice type re-uses the elements of
-     the old backing array (here: decoded onto zero elements); embedded
-     structs, the `string` tag option, []byte, non-ASCII case folding (U+212A,
+   - Not transcribed: elements of a slice's old backing array beyond its
+     current length (a third occurrence of a slice member can see them);
+     embedded structs, the `string` tag option, []byte, non-ASCII case folding (U+212A,
      U+017F) — tools/statsgen refuses shapes that need them.
    Number literals are abstract ([num]): what strconv makes of one enters as
    Section variables; the assumed contract is stated in Proofs/SerialStats.v.
@@ -159,13 +159,17 @@ Section Coders.
   Section DecLoops.
     Variable decv : jv -> gval -> dres.      (* the element decoder *)
     Variable zv : gval.                      (* the element type's zero value *)
-    (* d.array into a slice *)
-    Fixpoint dec_list (l : list jv) : result (list gval * option string) :=
+    (* d.array into a slice: element i is decoded onto the element the slice
+       already has at i (a duplicate member re-uses the old elements), onto a
+       zero element past its end; the result has the array's length *)
+    Fixpoint dec_list (l : list jv) (cur : list gval) : result (list gval * option string) :=
       match l with
       | [] => Ok ([], None)
       | j :: t =>
-          rbind (decv j zv) (fun ve =>
-          rbind (dec_list t) (fun re => Ok (fst ve :: fst re, first_err (snd ve) (snd re))))
+          let c := match cur with [] => zv | c :: _ => c end in
+          let rest := match cur with [] => [] | _ :: r => r end in
+          rbind (decv j c) (fun ve =>
+          rbind (dec_list t rest) (fun re => Ok (fst ve :: fst re, first_err (snd ve) (snd re))))
       end.
     (* d.object into a map: a fresh zero element per member, then SetMapIndex *)
     Fixpoint dec_map (ms : list (string * jv)) (cur : list (string * gval))
@@ -260,7 +264,9 @@ Section Coders.
           end)
     | TSlice e =>
         match j with
-        | JvArr l => rbind (dec_list (dec e) (zero_of e) l) (fun re => Ok (GSlice (Some (fst re)), snd re))
+        | JvArr l =>
+            let old := match cur with GSlice (Some c) => c | _ => [] end in
+            rbind (dec_list (dec e) (zero_of e) l old) (fun re => Ok (GSlice (Some (fst re)), snd re))
         | JvNull => Ok (GSlice None, None)
         | _ => type_error cur
         end
